@@ -21,7 +21,9 @@ RULE = ("histories: each case is a sub-seed from which 1-2 instance templates ar
         "different placement with probability 0.5; the model is evaluated on the template as extracted before every step "
         "and compared after every step. Plus: exhaustive substitute() texts of length <= L over a 9-symbol alphabet x 9 "
         "tables x 2 defaults; all fixup_name cases over styles x instance names x name pool; nested two-level placements; "
+        "classnames and keys spelt in other cases (Func_Instance, ORIGIN ...: the code compares them casefolded); "
         "collapse_all on random inclusion graphs (1-4 files, branching <= 2(3), self/mutual recursion, missing files, "
+        "func_instance / file / origin / angles spelt in mixed case, run under a call counter (bound of C17_term + 5) and an alarm, "
         "recursion limit 0-5). A case is non-trivial when something is placed with a non-identity placement or a name/"
         "variable is rewritten; distinct by content digest.")
 TRUSTED = ["the FGD value type of every key is looked up in the implementation's own engine database by the harness "
@@ -308,13 +310,13 @@ def check_step(st, prng):
         sides_ok(bo, list(bn.sides), f'brush[{n}]')
     table = st.params['fixup']
     for n, (old, new) in enumerate(zip(st.old_ents, st.new_ents)):
-        w = f'ent[{n}]({dict(st.old_keys[n]).get("classname")})'
+        w = f'ent[{n}]({G.FoldDict(st.old_keys[n]).get("classname")})'
         if len(st.old_ent_sides[n]) != len(new.solids):
             bad.append(('copy-count', f'{w}: {len(st.old_ent_sides[n])} solids -> {len(new.solids)}'))
         else:
             for m, (bo, bn) in enumerate(zip(st.old_ent_sides[n], new.solids)):
                 sides_ok(bo, list(bn.sides), f'{w}.solid[{m}]')
-        okeys = dict(st.old_keys[n])
+        okeys = G.FoldDict(st.old_keys[n])
         if [k for k, _ in st.old_keys[n]] != [k for k, _ in new.items()]:
             bad.append(('keys-changed', f'{w}: keys {[k for k, _ in st.old_keys[n]]} -> {[k for k, _ in new.items()]}'))
             continue
@@ -448,7 +450,7 @@ def check_step(st, prng):
     # of the template refers to the copy of that node
     node_new = {}
     for old_kv, new in zip(st.old_keys, st.new_ents):
-        okeys = dict(old_kv)
+        okeys = G.FoldDict(old_kv)
         for k, v in old_kv:
             if clf.kind(okeys, k) == 'special:TARG_NODE_SOURCE':
                 try:
@@ -459,7 +461,7 @@ def check_step(st, prng):
     if len(set(ints)) != len(ints):
         bad.append(('node-ids', f'node ids in the target map are not unique after the collapse: {sorted(ints)}'))
     for n, (old_kv, new) in enumerate(zip(st.old_keys, st.new_ents)):
-        okeys = dict(old_kv)
+        okeys = G.FoldDict(old_kv)
         for k, v in old_kv:
             if clf.kind(okeys, k) != 'special:TARG_NODE_DEST':
                 continue
@@ -799,8 +801,11 @@ def build_graph(im, g):
         v.create_ent('info_target', targetname='t', origin='0 0 0')
         for k in f['kids']:
             (a, _), (o, _) = G.rand_angle(rng), G.rand_origin(rng)
-            v.create_ent('func_instance', file=name(k), targetname=rng.choice(['', 'sub', 'x']),
-                         origin=G.fmt_vec(tuple(x / 16 for x in o)), angles=G.fmt_vec(a), fixup_style=str(rng.choice([0, 1, 2])))
+            # classnames and keys are compared case-insensitively (by_class, Entity keys): spell them in any case
+            cv = lambda x_, p_=0.3: G.case_variant(rng, x_, p_)
+            v.create_ent(g.get('classname') or cv('func_instance', 0.45), **{cv('file'): name(k), cv('targetname'): rng.choice(['', 'sub', 'x']),
+                         cv('origin'): G.fmt_vec(tuple(x / 16 for x in o)), cv('angles'): G.fmt_vec(a),
+                         cv('fixup_style'): str(rng.choice([0, 1, 2]))})
         for _ in range(f['hidden']):
             e = v.create_ent('func_instance', file=name(i), targetname='hid', origin='0 0 0', angles='0 0 0')
             e.hidden = True
@@ -808,8 +813,10 @@ def build_graph(im, g):
     top = VMF()
     for k in g['init']:
         (a, _), (o, _) = G.rand_angle(rng), G.rand_origin(rng)
-        top.create_ent('func_instance', file=name(k), targetname=rng.choice(['', 'top']), origin=G.fmt_vec(o), angles=G.fmt_vec(a))
-    return top, im['VirtualFileSystem'](mapping)
+        top.create_ent(G.case_variant(rng, 'func_instance', 0.3), file=name(k), targetname=rng.choice(['', 'top']), origin=G.fmt_vec(o), angles=G.fmt_vec(a))
+    spell = sorted({e['classname'] for t in [top] for e in t.entities} |
+                   {m.group(1) for txt in mapping.values() for m in __import__('re').finditer(r'"classname" "([^"]*nstance)"', txt, 2)})
+    return top, im['VirtualFileSystem'](mapping), spell
 
 
 def geom_bound(g):
@@ -820,7 +827,7 @@ def geom_bound(g):
 def run_collapse_all(im, g):
     """Run collapse_all under a call counter and an alarm. Returns dict(collapses, outcome, left)."""
     I = im['I']
-    top, fsys = build_graph(im, g)
+    top, fsys, spell = build_graph(im, g)
     bound = geom_bound(g)
     count = [0]
     real = I.collapse_one
@@ -856,14 +863,18 @@ def run_collapse_all(im, g):
         signal.signal(signal.SIGALRM, old)
         I.collapse_one = real
     return {'collapses': count[0], 'outcome': outcome, 'left': len(top.by_class['func_instance']),
-            'brushes': len(top.brushes), 'bound': bound}
+            'brushes': len(top.brushes), 'bound': bound, 'spell': spell}
 
 
 def check_collapse_all(g, r):
     """Termination statement: returns with no instance left, or raises RecursionError / FileNotFoundError, after at
     most n0 * sum_{k<limit} b^k collapses."""
     bad = []
-    if r['outcome'] not in ('done', 'recursion', 'missing'):
+    if r['outcome'] in ('too-many', 'hang'):
+        bad.append(('collapse-all', f'collapse_all does not terminate within the proved bound (C17_term: at most n0 * sum_{{k<limit}} b^k = '
+                                    f'{r["bound"]} collapses): stopped after {r["collapses"]} collapses ({r["outcome"]}) on the inclusion graph {g}, '
+                                    f'func_instance classnames spelt {r["spell"]}'))
+    elif r['outcome'] not in ('done', 'recursion', 'missing'):
         bad.append(('collapse-all', f'collapse_all on graph {g}: {r["outcome"]} after {r["collapses"]} collapses (bound {r["bound"]})'))
     if r['collapses'] > r['bound']:
         bad.append(('collapse-all', f'collapse_all on graph {g}: {r["collapses"]} collapses exceed the bound {r["bound"]}'))
@@ -883,6 +894,8 @@ def corr_collapse_all(ctx, drv):
     rng = ctx.rng
     reqs, meta = [], []
     fixed = [{'files': [{'kids': [0, 0], 'hidden': 0}], 'init': [0], 'limit': 5},
+             {'files': [{'kids': [0], 'hidden': 0}], 'init': [0], 'limit': 4, 'classname': 'Func_Instance'},
+             {'files': [{'kids': [1], 'hidden': 0}, {'kids': [0, 1], 'hidden': 0}], 'init': [1], 'limit': 3, 'classname': 'FUNC_INSTANCE'},
              {'files': [{'kids': [1], 'hidden': 0}, {'kids': [0], 'hidden': 1}], 'init': [0, 1], 'limit': 4},
              {'files': [{'kids': [], 'hidden': 0}], 'init': [0], 'limit': 1},
              {'files': [{'kids': [], 'hidden': 0}], 'init': [], 'limit': 0},
@@ -898,6 +911,7 @@ def corr_collapse_all(ctx, drv):
         ctx.case({'graph': g}, nontrivial=bool(g['init']) and g['limit'] > 0)
         ctx.count('collapse_all outcome ' + r['outcome'])
         ctx.count('collapse_all self-recursive' if selfrec else 'collapse_all not self-recursive')
+        ctx.count('collapse_all with a mixed-case func_instance classname' if any(x != 'func_instance' for x in r['spell']) else 'collapse_all all lower-case')
     for (g, r), m in zip(meta, drv.batch(reqs)):
         ctx.traces_vs_impl += 1
         if r['outcome'] == 'missing' or m.get('outcome') == 'missing':
